@@ -11,7 +11,7 @@ From Coq Require Import List Arith ZArith Bool.
 From GS Require Import C20_Heap C20_Effects.
 Import ListNotations.
 
-(* every entry point, every configuration (26472 in total), every value type, contents, size, every
+(* every entry point, every configuration (57468 in total), every value type, contents, size, every
    binding and aliasing of arguments and attributes: all buffers that exist before the call (caller
    arrays, earlier stored/returned results) have the same contents after the call *)
 Theorem C20_no_caller_write :
@@ -51,7 +51,7 @@ Print Assumptions C20_predicted_writes_empty.
 
 (* the configuration space: its size, and the enumeration used by the finite check is complete *)
 Theorem C20_config_space :
-  total_cfgs = 26472%Z
+  total_cfgs = 57468%Z
   /\ (forall e, Z.of_nat (length (all_cfgs (dims e))) = cfg_count e)
   /\ (forall e c, valid_cfg (dims e) c -> In c (all_cfgs (dims e)))
   /\ (forall e, In e entries).
@@ -76,7 +76,7 @@ Theorem C20_pinned_tree_refuted :
   /\ written_initial false EPostField [0; 1; 0; 1] = [0]
   /\ written_initial false EApplyMNT [0; 0; 1; 0; 1; 0] = [1]
   /\ written_initial false ERemoveTNM [0; 0; 1; 0; 1; 0] = [1]
-  /\ written_initial false ETransform cfg_transform = [1]
+  /\ written_initial false ETransform cfg_transform = [3]
   /\ written_initial true EVario cfg_vario_latlon = []
   /\ written_initial true EVarioAxis cfg_axis_mask = []
   /\ written_initial true EFieldCall cfg_field_call = []
